@@ -146,6 +146,7 @@ def gen_case(rng, k):
                               shape[1] + 2 * int(rng.integers(1, 5)) + int(rng.integers(0, 2))]]
     if (k // 6) % 4 == 1:
         q["wide_level"] = float(rng.choice([2.0 ** 30, 1e9, 2.0 ** 26]))
+    q["moving"] = (k // 3) % 2 == 1
     if (k // 6) % 4 == 3:     # a run on a frame whose spectrum has the same shape (same height, width 2n <-> 2n+1) right before
         q["prior_runs"] = [[shape[0], shape[1] + 1 if shape[1] % 2 == 0 else shape[1] - 1]]
     return q
@@ -198,6 +199,29 @@ def run_case(kind, q):
                 i = int(np.argmax(err))
                 msgs.append(f"{pipeline}(upsample={us}) {q['pattern']['kind']} r={radius} shape {shape}: disk on pixel "
                             f"{p.tolist()}, start {starts[i].tolist()}: refined {ref[i].tolist()} off by {err[i]:.4f} > {tol:.4f}")
+    if q.get("moving") and c - ext - 2 >= 1:
+        # a stack of frames through the batch helpers (frame buffer and crop buffers are reused from frame to frame): the disk sits
+        # on another pixel in every frame (sample drift), all inside the search window of the same start position
+        from libertem_blobfinder.common import correlation as cc
+        dmax = min(3, c - ext - 2)
+        rs = np.random.default_rng(q["seed"] + 3)
+        ps = [p] + [p + rs.integers(-dmax, dmax + 1, 2) for _ in range(3)]
+        ps = [pp_ for pp_ in ps if np.all(pp_ - ext - 1 >= 0) and np.all(pp_ + ext + 1 < np.array(shape))]
+        if np.all(p - c >= 0) and np.all(p + c <= np.array(shape)) and len(ps) >= 2:
+            stack = np.stack([disk_frame(shape, pp_, radius, q["amp"], q["bg"]) for pp_ in ps])
+            for nm, fn in (("process_frames_full", cc.process_frames_full), ("process_frames_fast", cc.process_frames_fast)):
+                try:
+                    outs = fn(pattern, stack, p[np.newaxis])
+                except Exception as e:
+                    msgs.append(f"{nm} on a stack raised {type(e).__name__}: {e}")
+                    continue
+                for fi, pp_ in enumerate(ps):
+                    cen, ref = np.asarray(outs[0][fi][0]), np.asarray(outs[1][fi][0], dtype=np.float64)
+                    if np.any(cen != pp_) or np.abs(ref - pp_).max() > 0.01 + 1e-6:
+                        msgs.append(f"{nm} {q['pattern']['kind']} r={radius} shape {shape}: frame {fi} of a stack, disk on pixel "
+                                    f"{pp_.tolist()} (frame before: {ps[fi - 1].tolist() if fi else None}): centre {cen.tolist()} "
+                                    f"refined {ref.tolist()}")
+                        break
     if q.get("wrappers"):
         # the batch helpers (their own output arrays: narrow integer centres) with upsampling, for disks far from the origin of a
         # long frame: coordinate x upsampling factor goes beyond 2**15
